@@ -23,6 +23,32 @@ GEN     Gen_Compress (vectors checked against the spec itself: StreamOf(EncMsg(m
         32 000 -- the reference packing then goes through a caller buffer of the specification's LenMsg + 1 if Pack() refuses it).
         Reverse direction in the same run: the spec's hand-compressed octets (pointer from every RDATA name to the question name) ->
         real Unpack must accept and read the vector's message.
+FOREIGN Gen_Compress mode "foreign" (seed C04-20): the compressed forms OTHER encoders emit.  PackAny leaves the choice of the target
+        open; the library's packer always points at first occurrences, so round trips never show its reader a pointer that lands on a
+        pointer.  Compress!Recompress re-encodes the specification's uncompressed octets name by name (Emit1) under four strategies --
+        latest: the LAST earlier start of the longest matching suffix (an RRset whose owners each point at the previous owner FIELD, an
+        RDATA name at the previous record's RDATA name: whole-name pointer -> whole-name pointer -> ... before any label is read);
+        latest-whole-anyrdata: whole names only, in the RDATA of every type; first-anyrdata: first occurrences, any RDATA;
+        latest-rootptr: pointers also in place of root octets -- over runs (n = 2, 3, 10; thorough 2..12, 40, x 4 owner patterns x A / NS /
+        MX), every name-bearing type twice in a row (name = / one label below the question name) and (thorough) the "first" messages.  Gen_Compress
+        asserts on every form that the judge takes it (ValidCompressedStageH = ok | pointer-in-uncompressible-rdata for the anyrdata
+        strategies: never sent, accepted on input | longer for rootptr) and that the runs DO chain pointer to pointer (PtrOnPtr);
+        harness: Msg.Unpack must accept each form and read the vector's message.  Keys compress/input-rejected|input-misread|
+        input-panic:<TYPE of the last record>:<strategy>.
+SPELL   Gen_Compress mode "spell" (seed C04-21): "names differing only in ... escaping".  Ten names under z. whose first label holds a
+        dot (a.b as ONE label, next to the two labels a, b), a backslash (x\y next to xy), a space, a quote, octet 200, a lone
+        backslash, a lone dot; question / NS owner / two A owners, each position in one of four SPELLINGS of the same labels (field sp;
+        harness spell(): 0 canonical, 1 \097 for a, 2 every escape in decimal -- \046, \092, \034 --, 3 every octet \DDD), 1600
+        combinations (quick: 400 by seed) -> packBoth -> Trace_Compress (transparency: the names of the compressed octets are the
+        vector's), OWN, BUF.  The record zoo has the decimal spellings a\046b.c.example.org. / x\092y.example.org. among its owners.
+OVERLONG Gen_Compress mode "overlong" (seed C04-19): names of 254, 255, 256, 257, 300 octets, 127 / 128 labels, a 64-octet label in
+        a long and in a short name, whose tail (193 / 201 / 3 octets) is already in the message -- as question name or first seen in NS
+        RDATA -- at each kind of position (second question, owner, NS / MX / CNAME target, SRV target).  The well-formed ones (254,
+        255, 127 labels: the longest names there are, compressed against their tail) go the usual way; for the others the vector says
+        nowf (WFMsg fails: the specification gives the message no wire form): Pack() must not yield octets with compression for what
+        it refuses without (the statement compares the two packings of any message; octets from one of them only are not "exactly the
+        same message", and the name they hold expands beyond 255 octets).  Key compress/packs-what-uncompressed-refuses:overlong:
+        <question|owner|rdata:TYPE>.  (A message Pack() takes WITHOUT compression against the specification is C01 / C03's: counted.)
 CHAIN   Compress!JudgeStreamsH = JudgeStreams + the chain clause: no name is read through more than MaxPtrHops = MaxName \div 2 = 127
         pointers (a name has at most 127 labels and a pointer of a packer that points at first occurrences is followed by a label:
         MC_Compress invariant Chains shows that Compress!Hops, read off the stream hints, IS the number of pointers Names!DecName follows,
@@ -60,7 +86,7 @@ Ill-formed streams, a walker that disagrees with TLC's own walk, judges that dis
 Finding keys: compress/<clause>:<question|owner|rdata:TYPE>  (clauses: not-transparent, longer, header-differs, pointer-when-compress-off,
         pointer-in-uncompressible-rdata, pointer-target-beyond-limit, pointer-not-backwards, pointer-not-to-a-name-suffix, name-invalid),
         pointer-chain-too-deep:<where>, compress/compressed-unreadable:<mode>, compress/pack-error:<mode> (mode = family | multiq | types | first | pad |
-        runs | nest | bulk | dense | zoo), compress/own-output-*:<mode>, compress/input-rejected|input-misread|input-panic:<TYPE>.
+        runs | nest | bulk | dense | zoo | foreign | spell | overlong), compress/own-output-*:<mode>, compress/input-rejected|input-misread|input-panic:<TYPE>.
 Known finding (known-findings.d/C04.txt): compress/own-output-rejected:nest:chain-127 -- nested names up to 127 labels, the longest twice:
         Pack() builds a valid chain of 127 pointers, UnpackDomainName gives up after 126.
 
@@ -86,6 +112,13 @@ Mutants (checks/mutants/C04/*.diff; each `VERIF_REPO=/tmp/comp-x bin/check C04 q
                             and compress/own-output-rejected:runs:chain-127|chain-over-127 (OWN)
   refuse-large-uncompressed.diff  ErrBuf instead of allocating more than 65536 octets, tested on the UNCOMPRESSED length (seed C04-15)
                             -> replay large/bulk: reference through a caller buffer, then compress/pack-error:bulk
+  longname-unchecked-when-compressing.diff  255-octet limit not applied when the name may be compressed (the class of seed C04-19) -> replay
+                            overlong: compress/packs-what-uncompressed-refuses:overlong:question|owner|rdata:NS|MX|CNAME
+  unpack-refuses-pointer-to-pointer.diff  UnpackDomainName refuses a pointer whose target is a pointer (the class of seed C04-20) -> replay
+                            foreign: compress/input-rejected:<TYPE>:latest|latest-whole-anyrdata|latest-rootptr
+  ddd-dot-rescanned-when-compressing.diff  with a compression map, the octet decoded from \046 is looked at again and ends the label (the
+                            class of seed C04-21) -> replay spell: Trace_Compress compress/not-transparent:*, compress/own-output-misread:spell
+Seeds of round 7: C04-19 -> OVERLONG; C04-20 -> FOREIGN; C04-21 -> SPELL (also TV: zoo owners a\046b.c.example.org., x\092y.example.org.).
 Non-vacuity of MC_Compress (run by hand, each invariant must be violated): NoPointerEver, NoLimitCrossed, AlwaysImpl, NoDeviationDecodes,
         NoChain, NoDegenerate.
 """
@@ -139,7 +172,7 @@ def judge(ctx, evpath, names, tag, notes=True, small=SMALL):
 
 
 def brief(e):
-    c = {k: e[k] for k in ("g", "v", "ddd", "key", "hasmsg", "implen") if k in e}
+    c = {k: e[k] for k in ("g", "v", "ddd", "sp", "key", "hasmsg", "implen") if k in e}
     if e.get("hasmsg") and len(e["bytesU"]) <= 4096:
         c["msg"] = e["msg"]
     if len(e["bytesU"]) <= 4096 or not e.get("hasmsg"):
@@ -228,7 +261,7 @@ def reexecute(ctx, binp, lay, names, cand):
                 return None
             e = dict(e, msg=vec["msg"])
         src, dst = os.path.join(ctx.out, "re-in-%s.ndjson" % tag), os.path.join(ctx.out, "re-out-%s.ndjson" % tag)
-        full = dict({"bytesC": [], "bytesU": [], "sc": [], "su": [], "implen": -1, "ddd": [], "key": "", "hasmsg": False}, **e)
+        full = dict({"bytesC": [], "bytesU": [], "sc": [], "su": [], "implen": -1, "ddd": [], "sp": [], "key": "", "hasmsg": False}, **e)
         vp.write_ndjson(src, [full])
         s = ctx.run_json(binp, ["reexec", lay, src, dst])
         if any(m["key"] == cand["key"] for m in s["mismatches"]):
@@ -271,6 +304,9 @@ def run(ctx):
                  lambda: gen(ctx, binp, lay, names, "types", 0, 1, 0),
                  lambda: gen(ctx, binp, lay, names, "first", 0, 1, 0),
                  lambda: gen(ctx, binp, lay, names, "pad", 0, 1, 0)]
+        jobs += [lambda sh=sh: gen(ctx, binp, lay, names, "foreign", 0, 4, sh) for sh in range(4)]
+        jobs += [lambda: gen(ctx, binp, lay, names, "spell", 0, 4, ctx.seed % 4),
+                 lambda: gen(ctx, binp, lay, names, "overlong", 0, 1, 0)]
         jobs += [lambda k=k: rec(ctx, binp, lay, names, 300, False, k) for k in range(2)]
     else:
         jobs = [lambda: mc(ctx, 1, 3)]
@@ -281,6 +317,9 @@ def run(ctx):
                  lambda: gen(ctx, binp, lay, names, "first", 1, 1, 0),
                  lambda: gen(ctx, binp, lay, names, "pad", 1, 1, 0)]
         jobs += [lambda sh=sh: gen(ctx, binp, lay, names, "large", 1, 16, sh) for sh in range(16)]
+        jobs += [lambda sh=sh: gen(ctx, binp, lay, names, "foreign", 1, 6, sh) for sh in range(6)]
+        jobs += [lambda sh=sh: gen(ctx, binp, lay, names, "spell", 1, 4, sh) for sh in range(4)]
+        jobs += [lambda: gen(ctx, binp, lay, names, "overlong", 1, 1, 0)]
         jobs += [lambda: dense(ctx, binp, lay, names, 8, 6000)]
         jobs += [lambda k=k: rec(ctx, binp, lay, names, 2500, False, k) for k in range(4)]
         jobs += [lambda k=k: rec(ctx, binp, lay, names, 40, True, 10 + k) for k in range(8)]
